@@ -1027,7 +1027,7 @@ func wrapDefect(kind string, d any) any {
 	return d
 }
 
-var defectKinds = []string{"unknown-type", "ref-missing-def", "ref-missing-file", "enum-empty", "enum-empty-typed", "enum-nonprimitive", "enum-nonprimitive-typed", "enum-nonprimitive-integer"}
+var defectKinds = []string{"unknown-type", "ref-missing-def", "ref-missing-file", "enum-empty", "enum-empty-typed", "enum-nonprimitive", "enum-nonprimitive-typed", "enum-nonprimitive-integer", "ref-nested-bad-def"}
 
 func defectValue(kind string) any {
 	switch kind {
@@ -1047,6 +1047,12 @@ func defectValue(kind string) any {
 		return Obj{{"type", "string"}, {"enum", []any{Obj{{"k", 1}}}}}
 	case "enum-nonprimitive-integer":
 		return Obj{{"type", "integer"}, {"enum", []any{[]any{1}}}}
+	case "ref-nested-bad-def":
+		// a reference into a NESTED definition that cannot be generated (an empty enum): today nested definitions cannot
+		// be referred to at all, a tool that supports them has to look at what it finds there - the run fails either way
+		// (seeded change s115: nested definitions became reachable, but only top-level ones are ever walked, and an
+		// untyped one is answered with interface{} unseen). buildDefect adds the definition ZnOuter.
+		return Obj{{"$ref", "#/$defs/ZnOuter/$defs/inner"}}
 	}
 	panic(kind)
 }
@@ -1084,6 +1090,38 @@ func genDefect(t *rapid.T, w *World, args []string, add addFn, feature string) {
 	add("unmodified", w.Spec("", nil, args), c18Run{Kind: "valid", Ref: -1, Feature: feature})
 	f := afs[rapid.IntRange(0, len(afs)-1).Draw(t, "dfile")]
 	sites := collectSites(f.Doc)
+	// a third of the time the defect goes into a document that is not an argument but is referred to by one, as an
+	// extra definition that no reference names: the tool walks a referenced document in full, and what it cannot
+	// generate there fails the run like anywhere else (seeded change s118 turned that failure into a warning and went on
+	// with a half-registered declaration)
+	if rapid.IntRange(0, 2).Draw(t, "dreferenced") == 0 {
+		isArg := map[string]bool{}
+		for _, a := range afs {
+			isArg[a.Tag] = true
+		}
+		var refd []*SFile
+		for _, a := range afs {
+			for _, r := range a.Refs {
+				if tf := w.File(r.ToTag); tf != nil && !isArg[tf.Tag] && !isSpecial(tf) && tf.URL == "" && tf.Doc != nil && r.Combo == "" {
+					refd = append(refd, tf)
+				}
+			}
+		}
+		if len(refd) > 0 {
+			f = refd[rapid.IntRange(0, len(refd)-1).Draw(t, "dreffile")]
+			var ds []site
+			for _, st := range collectSites(f.Doc) {
+				if strings.HasPrefix(st.class, "def") {
+					ds = append(ds, st)
+				}
+			}
+			if len(ds) == 0 {
+				return
+			}
+			sites = ds
+			feature += "referenced-only-document"
+		}
+	}
 	s := sites[rapid.IntRange(0, len(sites)-1).Draw(t, "dsite")]
 	kind := rapid.SampledFrom(defectKinds).Draw(t, "dkind")
 	if strings.HasPrefix(s.class, "refbranch") {
@@ -1139,6 +1177,16 @@ func buildDefect(w *World, args []string, f *SFile, s site, kind, wrap string, b
 		doc = setAt(f.Doc, s.path, func(v any) any { return append(Obj{}, v.(Obj)...).Set("items", val) }).(Obj)
 	default:
 		doc = setAt(f.Doc, s.path, func(v any) any { return append(Obj{}, v.(Obj)...).Set(s.key, val) }).(Obj)
+	}
+	if kind == "ref-nested-bad-def" {
+		key := defsKey(doc)
+		doc = withDef(doc, "ZnOuter", Obj{{"type", "object"}, {"properties", Obj{{"k", Obj{{"type", "string"}}}}}, {key, Obj{{"inner", Obj{{"enum", []any{}}}}}}})
+		if key != "$defs" {
+			b := bytes.ReplaceAll(RenderJSON(doc, nil), []byte("#/$defs/ZnOuter/$defs/inner"), []byte("#/"+key+"/ZnOuter/"+key+"/inner"))
+			if v, err := ParseOrdered(b); err == nil {
+				doc = v.(Obj)
+			}
+		}
 	}
 	nf := *f
 	nf.Doc = doc
@@ -1711,6 +1759,16 @@ var oddityTexts = []struct{ name, json string }{
 	{"title-is-number", "{\"type\": \"string\", \"title\": 5}"},
 	{"description-is-array", "{\"type\": \"string\", \"description\": [\"a\"]}"},
 	{"format-is-number", "{\"type\": \"string\", \"format\": 1}"},
+	// multipleOf on integers with steps that binary floating point cannot hold exactly, tiny ones among them: whatever the
+	// generator computes from them, it computes in bounded time (seeded change s116: "the smallest whole multiple", found
+	// by repeated addition until the sum is a whole number)
+	{"integer-multipleof-nano", "{\"type\": \"integer\", \"multipleOf\": 1e-9}"},
+	{"integer-multipleof-tenth", "{\"type\": \"integer\", \"multipleOf\": 0.1}"},
+	{"integer-multipleof-third", "{\"type\": \"integer\", \"multipleOf\": 0.3333333333333333}"},
+	{"integer-multipleof-huge", "{\"type\": \"integer\", \"multipleOf\": 1e300}"},
+	{"number-multipleof-nano", "{\"type\": \"number\", \"multipleOf\": 1e-9, \"default\": 0.5}"},
+	{"integer-multipleof-zero", "{\"type\": \"integer\", \"multipleOf\": 0}"},
+	{"integer-multipleof-negative", "{\"type\": \"integer\", \"multipleOf\": -2.5}"},
 	{"integer-bound-fractional", "{\"type\": \"integer\", \"minimum\": 0.5, \"maximum\": 9.5}"},
 	{"integer-exclusive-bound-fractional", "{\"type\": \"integer\", \"exclusiveMinimum\": 0.5, \"exclusiveMaximum\": 9.25}"},
 	{"empty-type-list", "{\"type\": []}"},
